@@ -27,6 +27,7 @@ type FakeSource struct {
 	openPos  int
 	ctx      context.Context
 	sendFail int
+	lastProduced int       // id of the last record handed out
 	holdNext bool          // the next ack send parks in the stream until released
 	parked   chan struct{} // non-nil while a send is parked; closed to release it
 	batches  chan []opencdc.Record
@@ -61,8 +62,16 @@ func (p *FakeSource) Run(ctx context.Context, _ pconnector.SourceRunStream) erro
 	return nil
 }
 
+// Stop answers like a connector built with the SDK: with the position of the last record the
+// plugin handed out (nothing if it handed out none in this run) - NOT the last one acked.
 func (p *FakeSource) Stop(context.Context, pconnector.SourceStopRequest) (pconnector.SourceStopResponse, error) {
-	return pconnector.SourceStopResponse{}, nil
+	p.mu.Lock()
+	last := p.lastProduced
+	p.mu.Unlock()
+	if last == 0 {
+		return pconnector.SourceStopResponse{}, nil
+	}
+	return pconnector.SourceStopResponse{LastPosition: PosBytes(last, 0)}, nil
 }
 
 // Teardown is called by Source.Teardown after it cancelled the stream and joined the
@@ -122,7 +131,12 @@ func (p *FakeSource) SendParked() bool {
 }
 
 // Produce queues one batch of records for the next Source.Read.
-func (p *FakeSource) Produce(recs []opencdc.Record) { p.batches <- recs }
+func (p *FakeSource) Produce(recs []opencdc.Record, lastID int) {
+	p.mu.Lock()
+	p.lastProduced = lastID
+	p.mu.Unlock()
+	p.batches <- recs
+}
 
 type fakeStream struct{ p *FakeSource }
 
